@@ -183,6 +183,30 @@ CHECKS["C18"] = (
     "Contract evaluation counts are reported and zero evaluations make the run inconclusive; bool counts not probed (bool is an int).",
     "DESIGN.md section 3 C18")
 
+CHECKS["C03"] = (
+    "quadrature monitor: exp(log_prob) of the real flow integrated over its typed data domain at three resolutions (compactified "
+    "midpoint rule; sigmoid / exponential substitutions for bounded and half-line domains) for random typed programs in data "
+    "dimension 1 and 2, with a reachability test of the base's mass and explicit truncation / resolution error estimates",
+    "|integral - 1| <= 1e-4 + 4*est (1-D, 1e5-4e5 nodes) resp. 5e-3 + 4*est (2-D, 260^2-1400^2 nodes) for programs "
+    "data-domain prefix {none, Logit, inverse Cauchy CDF, log, atanh} + 1-3 transforms (affine / linear family / all spline CDFs "
+    "with tails / composite CDF / Sigmoid..Logit pairs with temperatures / masked autoregressive / couplings / norm layers / "
+    "nonlinearities) x base {Standard, Diagonal, ConditionalDiagonal normal, MADEMoG} x parameter policies x context rows; packaged flows at "
+    "2 features. Undecidable cases (error estimate too large, base mass unreachable from representable data) are counted, never held.",
+    "Quadrature accuracy bounds what is visible (1e-4 / 5e-3); 2-D programs only use data domains whose prefix keeps (almost) all of R "
+    "representable; Sigmoid..Logit pairs in 2-D only directly in front of a standard normal (declared eps clamp).",
+    "DESIGN.md section 3 C03")
+CHECKS["C04"] = (
+    "row-wise pairing monitor (sample_and_log_prob vs log_prob one row at a time), hooked-noise replay monitor (instance-level wrapper "
+    "records the noise the base hands to the transform; every sample is recomputed row by row under its own context row), and "
+    "Kolmogorov-Smirnov monitors (samples vs cumulative quadrature of exp(log_prob); recorded noise vs the base density)",
+    "Typed flow programs (1-D / 2-D) and packaged flows x context none / 1 / 3 / 4 far-apart rows / embedding net x num_samples 1,2,7: "
+    "returned log-probs must equal log_prob of that sample under that context row (1e-6), sample[i,j] must be the inverse of its recorded "
+    "noise under context row i (1e-9) - which decides row repetition vs tiling exactly - and 2e5 (2e6) samples must pass KS at alpha 1e-9 "
+    "against the integrated density.",
+    "Statistical part only for 1-D flows whose density integral was decided; DiagonalNormal (no sampling offered) replaced by StandardNormal; "
+    "Sigmoid..Logit pair families excluded (declared eps clamp cannot round-trip freely drawn noise).",
+    "DESIGN.md section 3 C04")
+
 PENDING_REASON = "check not built yet in this session (planned, see DESIGN.md section 3); not claimed until it exists and is calibrated"
 
 
